@@ -235,6 +235,57 @@ VCLAUSE(regular_families, 40, 6000, 150000, "the requested accuracy forces at le
 	common_checks(c, f, rev ? b : a, rev ? a : b, eps, depth, r);
 }
 
+// "any epsilon": zero and negative zero (the recursion runs to the depth limit and stays within the evaluation bound); "equal limits give
+// zero" also where the integrand is not finite at that point
+VCLAUSE(degenerate_requests, 12, 4000, 80000, "epsilon is zero, or the limits are equal at a point where the integrand is not finite")
+{
+	Src& s = c.s;
+	c.nt();
+	if(s.coin())
+	{
+		int depth = (int) s.range(0, 9);
+		double a = s.mixed(-3, 3), w = std::pow(10.0, s.uniform(-6, 3)), b = a + w;
+		if(!(a < b))
+			throw Discard();
+		double cf[6];
+		for(auto& v : cf)
+			v = s.small_int(5);
+		auto f = [=](double x) { double t = (x - a) / w, v = 0; for(int k = 5; k >= 0; k--) v = v * t + cf[k]; return v; };
+		long double exact = 0;
+		for(int k = 0; k <= 5; k++)
+			exact += (long double) cf[k] / (k + 1);
+		exact *= w;
+		double eps = s.coin() ? 0.0 : -0.0;
+		c.cls("epsilon_zero");
+		VLOG(c, "quintic on [" << a << "," << b << "] eps=" << eps << " depth=" << depth);
+		bool ex = false;
+		Run r = integrate(f, a, b, eps, depth, ex);
+		VCHECK(!ex, "Integrate terminated the process for epsilon = 0: " << r.text);
+		long bound = (1L << (depth + 2)) + 1;
+		VCHECK(r.calls <= bound, "epsilon = 0: " << r.calls << " evaluations, bound " << bound);
+		// (the abscissae a + t w carry eps*|a| of rounding, i.e. eps*|a|/w in t: the conditioning factor of the other clauses)
+		VCLOSE(c, "quintic_exact_epsilon_zero", r.value, (double) exact, 64 * EPS * (8 + depth) * 36 * w * (1 + std::max(std::fabs(a), std::fabs(b)) / w), "quintic with epsilon = 0 at depth " << depth);
+		common_checks(c, f, a, b, eps, depth, r);
+	}
+	else
+	{
+		double a = s.mixed(-3, 3);
+		int kind = (int) s.range(0, 2);
+		std::function<double(double)> f;
+		if(kind == 0)
+			f = [=](double x) { return 1.0 / (x - a); };
+		else if(kind == 1)
+			f = [=](double x) { return std::log(x - a); };
+		else
+			f = [=](double x) { return std::sqrt(a - x) / (x - a); };
+		c.cls("equal_limits_at_a_singular_point");
+		VLOG(c, "equal limits " << a << " at a point where the integrand (kind " << kind << ") is not finite");
+		double v = 1;
+		VMUST_RETURN("Integrate with equal limits", v = libphysica::Integrate(f, a, a, std::pow(10.0, s.uniform(-12, 0)), (int) s.range(0, 20)));
+		VCHECK(v == 0.0, "equal limits must give zero, got " << v);
+	}
+}
+
 VCLAUSE(arbitrary_integrands, 60, 6000, 150000, "the recursion reaches the depth limit on some branch (non-convergence warning) while another branch converges")
 {
 	Src& s	= c.s;
